@@ -925,7 +925,7 @@ defprop("C17", "proof", {"R", "OG", "OC", "OS", "OH", "OI"}, lambda t, s: api_do
 defprop("C18", "other", {"R", "B"}, c18_cases, oracle=oracles.o_borrowed,
         rule="random documents with and without decoding-forcing constructs, entity-expanded nodes, fast-path families",
         technique="Coq model where a borrowed string is an offset pair + bounds lemmas + correspondence")
-defprop("C19", "other", {"R", "E", "N", "Q", "A", "S", "K", "C", "X"}, c19_corpus, oracle=None, extra=c19_extra,
+defprop("C19", "translation_validation", {"R", "E", "N", "Q", "A", "S", "K", "C", "X"}, c19_corpus, oracle=None, extra=c19_extra,
         rule="shared corpus parsed three times (forward, reversed, forward) in one process under four feature sets",
         technique="correspondence across feature builds (translation validation); model is a function by construction")
 defprop("C20", "other", None, lambda t, s: [], oracle=None, extra=c20_extra, model_side=False,
